@@ -331,6 +331,9 @@ func (e *Engine) buildQuery(o *Obligation) string {
 // Discharge solves all pending obligations in parallel.
 func (e *Engine) Discharge() {
 	var wg sync.WaitGroup
+	var mu sync.Mutex
+	failed := map[string]int{} // per obligation name: paths that did not discharge
+	queue := make(chan *Obligation, len(e.Obls))
 	for _, o := range e.Obls {
 		if o.Result.Status != "" {
 			continue
@@ -339,16 +342,37 @@ func (e *Engine) Discharge() {
 			o.Result = SolverResult{Status: "unsat", Backend: "trivial"}
 			continue
 		}
-		o.Query = e.buildQuery(o)
+		queue <- o
+	}
+	close(queue)
+	for w := 0; w < 16; w++ {
 		wg.Add(1)
-		go func(o *Obligation) {
+		go func() {
 			defer wg.Done()
-			to := e.TimeoutMs
-			if o.Kind == "cover" {
-				to = 2000 // a cover only has to be not refuted
+			for o := range queue {
+				mu.Lock()
+				nf := failed[o.Name]
+				mu.Unlock()
+				if nf >= 3 {
+					// the obligation has already failed on three paths:
+					// do not burn solver time on its remaining paths
+					o.Query = e.buildQuery(o)
+					o.Result = SolverResult{Status: "unknown", Backend: "skipped", Raw: "skipped: this obligation already failed on 3 other paths"}
+					continue
+				}
+				o.Query = e.buildQuery(o)
+				to := e.TimeoutMs
+				if o.Kind == "cover" {
+					to = 2000 // a cover only has to be not refuted
+				}
+				o.Result = Solve(o.Query, to, "")
+				if o.Result.Status != "unsat" && o.Kind != "cover" {
+					mu.Lock()
+					failed[o.Name]++
+					mu.Unlock()
+				}
 			}
-			o.Result = Solve(o.Query, to, "")
-		}(o)
+		}()
 	}
 	wg.Wait()
 }
